@@ -508,6 +508,17 @@ pub fn c07(pid: i32, o: &DumpOpts, bytes: &[u8]) -> Vec<(String, String)> {
     fails
 }
 
+/// C08: the module list against the target's memory map, the mapped files and the caller's user mappings.
+pub fn c08(pid: i32, o: &DumpOpts, bytes: &[u8]) -> Vec<(String, String)> {
+    if !alive(pid) {
+        return vec![];
+    }
+    // entry point in force: the caller's direct value if non-zero, the kernel's AT_ENTRY otherwise
+    let kernel_entry = std::fs::read(format!("/proc/{pid}/auxv")).ok().and_then(|a| a.chunks_exact(16).find(|c| u64::from_le_bytes(c[..8].try_into().unwrap()) == 9).map(|c| u64::from_le_bytes(c[8..].try_into().unwrap()))).unwrap_or(0);
+    let entry = o.direct_auxv.map(|a| a.3).filter(|e| *e != 0).unwrap_or(kernel_entry);
+    crate::checks::c08::judge_modules(pid, &o.user_mappings, entry, &[], true, bytes).0
+}
+
 /// C12 (the part that does not depend on how the writer merged memory-map lines): with sanitising on,
 /// bytes below the stack pointer are zero; every word at or above it is either the target's word or
 /// the sentinel; words that qualify for certain (small integers, addresses inside the line that holds
